@@ -157,6 +157,8 @@ func init() {
 			{Name: "proxyheader", Dir: "cmd/application", Pkg: ".", Run: "^TestVerifC17ProxyHeader$", Drivers: []string{"app"}, Exports: []string{"lib"}, TimeoutQ: 6 * time.Minute, TimeoutT: 60 * time.Minute},
 			{Name: "fdexhaust", Dir: "cmd/application", Pkg: ".", Run: "^TestVerifC17FdExhaust$", Drivers: []string{"app"}, Exports: []string{"lib"}, TimeoutQ: 6 * time.Minute, TimeoutT: 30 * time.Minute},
 			{Name: "ingest", Pkg: "./pkg/station/lib", Run: "^TestVerifC17Ingest$", Drivers: []string{"lib"}, Exports: []string{"cdtls"}, TimeoutQ: 6 * time.Minute, TimeoutT: 60 * time.Minute},
+			// the relay handed connections that offer what *net.TCPConn offers (scripted, and real loopback sockets); same overlay as ingest (shared build)
+			{Name: "relay", Pkg: "./pkg/station/lib", Run: "^TestVerifC17Relay$", Drivers: []string{"lib"}, Exports: []string{"cdtls"}, TimeoutQ: 6 * time.Minute, TimeoutT: 60 * time.Minute},
 		},
 		Post: c17Post,
 	})
